@@ -42,8 +42,9 @@ var errSimStore = errors.New("sim: persistence failure")
 var errTeardown = errors.New("sim: world torn down")
 
 type simConn struct {
-	w  *World
-	id int
+	w   *World
+	id  int
+	gen int
 	// broker -> client bytes not yet read
 	in []byte
 	// client -> broker log
